@@ -432,6 +432,99 @@ func c19Content(r *vh.Rand, nested bool) mcp.Content {
 	}
 }
 
+// c19SamplingContent draws from the kinds valid in sampling messages, incl. tool_use and tool_result
+// (whose nested blocks each carry their own optional members).
+func c19SamplingContent(r *vh.Rand, depth int) mcp.Content {
+	switch x := r.Intn(6); {
+	case x == 0:
+		var in map[string]any
+		switch r.Intn(3) {
+		case 0:
+			in = map[string]any{}
+		case 1:
+			in = map[string]any{"q": c19String(r), "n": float64(r.Intn(100))}
+		}
+		return &mcp.ToolUseContent{ID: "call-" + c19String(r), Name: r.Choose("search", "", "t"), Input: in, Meta: c19Meta(r)}
+	case x <= 2 && depth > 0:
+		tr := &mcp.ToolResultContent{ToolUseID: "call-" + c19String(r), IsError: r.Chance(1, 3), Meta: c19Meta(r)}
+		switch r.Intn(4) {
+		case 0: // nil nested content
+		case 1:
+			tr.Content = []mcp.Content{}
+		default:
+			for i, n := 0, r.Range(1, 4); i < n; i++ {
+				switch r.Intn(4) {
+				case 0:
+					tr.Content = append(tr.Content, &mcp.TextContent{Text: r.Choose("", c19String(r)), Meta: c19Meta(r), Annotations: c19Annot(r)})
+				case 1:
+					var data []byte
+					if r.Bool() {
+						data = []byte(c19String(r))
+					}
+					tr.Content = append(tr.Content, &mcp.ImageContent{Data: data, MIMEType: r.Choose("", "image/png"), Meta: c19Meta(r), Annotations: c19Annot(r)})
+				default:
+					tr.Content = append(tr.Content, c19Content(r, true))
+				}
+			}
+		}
+		if r.Chance(1, 3) {
+			tr.StructuredContent = map[string]any{"k": []any{1.0, "x"}}
+		}
+		return tr
+	case x <= 3:
+		return &mcp.TextContent{Text: r.Choose("", c19String(r)), Meta: c19Meta(r), Annotations: c19Annot(r)}
+	case x == 4:
+		var data []byte
+		if r.Bool() {
+			data = []byte(c19String(r))
+		}
+		return &mcp.ImageContent{Data: data, MIMEType: r.Choose("", "image/png"), Meta: c19Meta(r)}
+	default:
+		return &mcp.AudioContent{Data: []byte{1, 2}, MIMEType: "audio/wav", Meta: c19Meta(r)}
+	}
+}
+
+func c19SamplingContents(r *vh.Rand, toolResults bool) []mcp.Content {
+	switch r.Intn(4) {
+	case 0:
+		return nil
+	case 1:
+		return []mcp.Content{}
+	}
+	var out []mcp.Content
+	d := 0
+	if toolResults {
+		d = 1
+	}
+	for i, n := 0, r.Range(1, 4); i < n; i++ {
+		out = append(out, c19SamplingContent(r, d))
+	}
+	return out
+}
+
+// requireContentDeep applies the per-kind rules to a content object and to every block nested in it.
+func requireContentDeep(it map[string]json.RawMessage, path string) string {
+	if s := requireContent(it); s != "" {
+		return path + ": " + s
+	}
+	var typ string
+	json.Unmarshal(it["type"], &typ)
+	if typ == "tool_result" {
+		v, ok := it["content"]
+		if t := bytes.TrimSpace(v); !ok || len(t) == 0 || t[0] != '[' {
+			return fmt.Sprintf("%s: required member \"content\" of a tool_result is %s, not an array", path, v)
+		}
+		var nested []map[string]json.RawMessage
+		json.Unmarshal(v, &nested)
+		for i, n := range nested {
+			if s := requireContentDeep(n, fmt.Sprintf("%s.content[%d]", path, i)); s != "" {
+				return s
+			}
+		}
+	}
+	return ""
+}
+
 // requireMembers checks "required member present and non-null" rules on an encoded result.
 func requireMembers(method string, raw []byte) string {
 	var m map[string]json.RawMessage
@@ -552,6 +645,17 @@ func c19Values(c *vh.Case) {
 		{"prompts/get", &mcp.GetPromptResult{Messages: c19Pick(r, []*mcp.PromptMessage{{Role: "user", Content: &mcp.TextContent{Text: c19String(r)}}})}, func() any { return new(mcp.GetPromptResult) }},
 		{"completion/complete", &mcp.CompleteResult{Completion: mcp.CompletionResultDetails{Values: c19Pick(r, []string{"a"})}}, func() any { return new(mcp.CompleteResult) }},
 	}
+	sres := &mcp.CreateMessageWithToolsResult{Content: c19SamplingContents(r, false), Model: "m", Role: "assistant", StopReason: r.Choose("", "toolUse"), Meta: c19Meta(r)}
+	var smsgs []*mcp.SamplingMessageV2
+	for i, n := 0, r.Range(1, 3); i < n; i++ {
+		smsgs = append(smsgs, &mcp.SamplingMessageV2{Role: mcp.Role(r.Choose("user", "assistant")), Content: c19SamplingContents(r, true)})
+	}
+	cands = append(cands,
+		rt{"sampling/createMessage:result", sres, func() any { return new(mcp.CreateMessageWithToolsResult) }},
+		rt{"sampling/createMessage:params", &mcp.CreateMessageWithToolsParams{MaxTokens: 5, Messages: smsgs}, func() any { return new(mcp.CreateMessageWithToolsParams) }},
+		rt{"sampling/createMessage:result", sres, func() any { return new(mcp.CreateMessageWithToolsResult) }},
+		rt{"sampling/createMessage:params", &mcp.CreateMessageWithToolsParams{MaxTokens: 5, Messages: smsgs}, func() any { return new(mcp.CreateMessageWithToolsParams) }},
+	)
 	k := cands[r.Intn(len(cands))]
 	enc, err := json.Marshal(k.v)
 	if err != nil {
@@ -564,6 +668,48 @@ func c19Values(c *vh.Case) {
 	if k.method == "tools/call" && contents != nil {
 		if s := requireMembers(k.method, enc); s != "" { // per-item rules (text/data/mimeType/uri present)
 			c.Violate("required-member-missing", "%s result encodes as %s: %s", k.method, enc, s)
+			return
+		}
+	}
+	if strings.HasPrefix(k.method, "sampling/") {
+		// every content block the encoder emits, at any nesting depth, carries its kind's required members
+		var blocks []json.RawMessage
+		var top struct {
+			Content  json.RawMessage `json:"content"`
+			Messages []struct {
+				Content json.RawMessage `json:"content"`
+			} `json:"messages"`
+		}
+		json.Unmarshal(enc, &top)
+		blocks = append(blocks, top.Content)
+		for _, m := range top.Messages {
+			blocks = append(blocks, m.Content)
+		}
+		emptyContent := false
+		for _, b := range blocks {
+			t := bytes.TrimSpace(b)
+			if len(t) == 0 || string(t) == "null" || string(t) == "[]" {
+				emptyContent = emptyContent || len(t) > 0
+				continue
+			}
+			var items []map[string]json.RawMessage
+			if t[0] == '{' {
+				var one map[string]json.RawMessage
+				json.Unmarshal(t, &one)
+				items = append(items, one)
+			} else {
+				json.Unmarshal(t, &items)
+			}
+			for i, it := range items {
+				if s := requireContentDeep(it, fmt.Sprintf("content[%d]", i)); s != "" {
+					c.Violate("required-member-missing/nested", "%s encodes as %s: %s", k.method, enc, s)
+					return
+				}
+			}
+		}
+		if emptyContent {
+			// a message without any content block has no defined single-object/array form; nothing more to check
+			c.Nontrivial(string(enc))
 			return
 		}
 	}
@@ -622,9 +768,14 @@ func c19Live(c *vh.Case) {
 		}
 	}
 	c.SetSpec(map[string]any{"gen": "live", "transport": kind, "version": version, "payloads": payloads[:6], "big_payload_bytes": big})
-	server := mcp.NewServer(&mcp.Implementation{Name: "s", Version: "1"}, &mcp.ServerOptions{
+	paged := r.Chance(1, 3)
+	sopts := &mcp.ServerOptions{
 		CompletionHandler: func(context.Context, *mcp.CompleteRequest) (*mcp.CompleteResult, error) { return &mcp.CompleteResult{}, nil },
-	})
+	}
+	if paged {
+		sopts.PageSize = 2
+	}
+	server := mcp.NewServer(&mcp.Implementation{Name: "s", Version: "1"}, sopts)
 	server.AddTool(&mcp.Tool{Name: "echo", InputSchema: json.RawMessage(`{"type":"object"}`)}, func(ctx context.Context, req *mcp.CallToolRequest) (*mcp.CallToolResult, error) {
 		var a struct{ Text string }
 		json.Unmarshal(req.Params.Arguments, &a)
@@ -643,9 +794,26 @@ func c19Live(c *vh.Case) {
 	server.AddResource(&mcp.Resource{URI: "file:///r", Name: "r"}, func(context.Context, *mcp.ReadResourceRequest) (*mcp.ReadResourceResult, error) {
 		return &mcp.ReadResourceResult{}, nil
 	})
-	client := mcp.NewClient(&mcp.Implementation{Name: "c", Version: "1"}, nil)
+	sampleKind := r.Choose("text", "many", "nil", "empty", "tool-use")
+	client := mcp.NewClient(&mcp.Implementation{Name: "c", Version: "1"}, &mcp.ClientOptions{
+		CreateMessageWithToolsHandler: func(context.Context, *mcp.CreateMessageWithToolsRequest) (*mcp.CreateMessageWithToolsResult, error) {
+			res := &mcp.CreateMessageWithToolsResult{Model: "m", Role: "assistant"}
+			switch sampleKind {
+			case "text":
+				res.Content = []mcp.Content{&mcp.TextContent{}}
+			case "many":
+				res.Content = []mcp.Content{&mcp.TextContent{Text: "a"}, &mcp.ToolUseContent{ID: "1", Name: "t"}, &mcp.ImageContent{}}
+			case "empty":
+				res.Content = []mcp.Content{}
+			case "tool-use":
+				res.Content = []mcp.Content{&mcp.ToolUseContent{ID: "1", Name: "t"}}
+			}
+			return res, nil
+		},
+	})
 	var mu sync.Mutex
 	methodOf := map[string]string{}
+	srvCalls := map[string]string{} // id -> method of requests the server sent to the client
 	var problems []string
 	wrap := func(inner mcp.Connection) mcp.Connection {
 		fc := vhm.NewFaultConn(inner, log, "client")
@@ -656,16 +824,50 @@ func c19Live(c *vh.Case) {
 				mu.Unlock()
 			}
 			if resp, ok := msg.(*jsonrpc.Response); ok && resp.Error == nil {
-				// responses the client sends (roots/list)
+				// responses the client sends (roots/list, sampling/createMessage)
+				mu.Lock()
+				m := srvCalls[vhm.IDString(resp.ID)]
+				mu.Unlock()
 				if s := requireMembers("roots/list", resp.Result); s != "" && bytes.Contains(resp.Result, []byte("roots")) {
 					mu.Lock()
 					problems = append(problems, "client response: "+s)
 					mu.Unlock()
 				}
+				if m == "sampling/createMessage" {
+					var o map[string]json.RawMessage
+					json.Unmarshal(resp.Result, &o)
+					v, ok := o["content"]
+					if t := bytes.TrimSpace(v); !ok || len(t) == 0 || string(t) == "null" {
+						mu.Lock()
+						problems = append(problems, fmt.Sprintf("client response to sampling/createMessage %s: required member \"content\" is absent or null", resp.Result))
+						mu.Unlock()
+					} else {
+						var items []map[string]json.RawMessage
+						if t[0] == '{' {
+							var one map[string]json.RawMessage
+							json.Unmarshal(t, &one)
+							items = append(items, one)
+						} else {
+							json.Unmarshal(t, &items)
+						}
+						for i, it := range items {
+							if s := requireContentDeep(it, fmt.Sprintf("content[%d]", i)); s != "" {
+								mu.Lock()
+								problems = append(problems, fmt.Sprintf("client response to sampling/createMessage %s: %s", resp.Result, s))
+								mu.Unlock()
+							}
+						}
+					}
+				}
 			}
 			return nil
 		}
 		fc.AfterRead = func(msg jsonrpc.Message, err error) (jsonrpc.Message, error) {
+			if req, ok := msg.(*jsonrpc.Request); ok && req.IsCall() {
+				mu.Lock()
+				srvCalls[vhm.IDString(req.ID)] = req.Method
+				mu.Unlock()
+			}
 			if resp, ok := msg.(*jsonrpc.Response); ok && resp.Error == nil {
 				mu.Lock()
 				m := methodOf[vhm.IDString(resp.ID)]
@@ -712,6 +914,47 @@ func c19Live(c *vh.Case) {
 		cs.Complete(ctx, &mcp.CompleteParams{Ref: &mcp.CompleteReference{Type: "ref/prompt", Name: "p"}, Argument: mcp.CompleteParamsArgument{Name: "a", Value: "v"}})
 		if pair.SS != nil {
 			pair.SS.ListRoots(ctx, nil)
+			if version != "" {
+				pair.SS.CreateMessageWithTools(ctx, &mcp.CreateMessageWithToolsParams{MaxTokens: 1, Messages: []*mcp.SamplingMessageV2{{Role: "user", Content: []mcp.Content{&mcp.TextContent{Text: "x"}}}}})
+			}
+		}
+		if paged {
+			// follow a cursor after everything behind it has been removed: the page is empty, its list member is not null
+			for i := 0; i < 3; i++ {
+				n := fmt.Sprintf("x%d", i)
+				server.AddTool(&mcp.Tool{Name: n, InputSchema: json.RawMessage(`{"type":"object"}`)}, func(context.Context, *mcp.CallToolRequest) (*mcp.CallToolResult, error) {
+					return &mcp.CallToolResult{}, nil
+				})
+				server.AddPrompt(&mcp.Prompt{Name: n}, func(context.Context, *mcp.GetPromptRequest) (*mcp.GetPromptResult, error) { return &mcp.GetPromptResult{}, nil })
+				server.AddResource(&mcp.Resource{URI: "file:///" + n, Name: n}, func(context.Context, *mcp.ReadResourceRequest) (*mcp.ReadResourceResult, error) {
+					return &mcp.ReadResourceResult{}, nil
+				})
+			}
+			time.Sleep(50 * time.Millisecond)
+			var tcur, pcur, rcur string
+			if res, err := cs.ListTools(ctx, nil); err == nil {
+				tcur = res.NextCursor
+			}
+			if res, err := cs.ListPrompts(ctx, nil); err == nil {
+				pcur = res.NextCursor
+			}
+			if res, err := cs.ListResources(ctx, nil); err == nil {
+				rcur = res.NextCursor
+			}
+			server.RemoveTools("x0", "x1", "x2", "structured-nil", "nil", "error-nil")
+			server.RemovePrompts("x0", "x1", "x2", "p")
+			server.RemoveResources("file:///x0", "file:///x1", "file:///x2", "file:///r")
+			time.Sleep(50 * time.Millisecond)
+			if tcur != "" {
+				cs.ListTools(ctx, &mcp.ListToolsParams{Cursor: tcur})
+			}
+			if pcur != "" {
+				cs.ListPrompts(ctx, &mcp.ListPromptsParams{Cursor: pcur})
+			}
+			if rcur != "" {
+				cs.ListResources(ctx, &mcp.ListResourcesParams{Cursor: rcur})
+			}
+			c.Count("paged_sessions", 1)
 		}
 	}
 	cs.Close()
